@@ -19,9 +19,9 @@ Hypothesis Hrec : forall t, length (recd c t) = sz c.
 Hypothesis Hinit : length init = (n0 * sz c)%nat.     (* the file starts as n0 whole records *)
 
 Definition holder (p : pc) : bool :=
-  match p with PFlocked | PSeeked _ | PHalf _ | PWritten _ => true | _ => false end.
+  match p with PFlocked | PSeeked _ | PHalf _ | PWritten _ | PFailing => true | _ => false end.
 Definition inlock (p : pc) : bool :=
-  match p with PLockedFD | PFlocked | PSeeked _ | PHalf _ | PWritten _ | PUnflocked _ => true | _ => false end.
+  match p with PLockedFD | PFlocked | PSeeked _ | PHalf _ | PWritten _ | PUnflocked _ | PFailing | PFailUnflocked => true | _ => false end.
 Definition committed (p : pc) : bool :=
   match p with PWritten _ | PUnflocked _ | PDoneOk _ => true | _ => false end.
 Definition finished (p : pc) : bool :=
@@ -164,9 +164,24 @@ Proof.
     + intros t0. upd t0 t; [discriminate|apply (I_pos s I)].
     + intros t0. upd t0 t; [|apply (I_log s I)]. rewrite (I_log s I), Ept. cbn. tauto.
     + apply (I_nodup s I).
-  - (* PSeeked i: first half of the write *)
-    inversion Hstep; subst; clear Hstep.
+  - (* PSeeked i: the write fails before anything is written, or its first half goes out *)
     assert (Ho : owner s = Some t) by (apply (I_owner s I); rewrite Ept; reflexivity).
+    destruct (bad c t) eqn:Ebad; inversion Hstep; subst; clear Hstep.
+    { (* BinaryWrite error: nothing written, error pending *)
+      constructor; cbn [pcs tbl owner file log set_pc].
+      + intros t0. upd t0 t; [rewrite Ho; cbn; tauto|apply (I_owner s I)].
+      + intros t0. upd t0 t; [intros _; apply (I_tbl1 s I); rewrite Ept; reflexivity|apply (I_tbl1 s I)].
+      + intros p Hp. destruct (I_tbl2 s I p Hp) as (t0 & Hp0 & Hl). exists t0. split; [exact Hp0|].
+        upd t0 t; [reflexivity|exact Hl].
+      + intros t0 t1 H0 H1. apply (I_tbl3 s I).
+        * upd t0 t; [rewrite Ept; reflexivity|exact H0].
+        * upd t1 t; [rewrite Ept; reflexivity|exact H1].
+      + rewrite (I_file s I) at 1. unfold partial. cbn [owner pcs set_pc]. rewrite Ho, Ept, updf_same. reflexivity.
+      + intros t0 i0. upd t0 t; [intros [H|H]; discriminate|apply (I_cur s I)].
+      + intros t0 i0. upd t0 t; [intros [H|[H|H]]; discriminate|apply (I_done s I)].
+      + intros t0. upd t0 t; [discriminate|apply (I_pos s I)].
+      + intros t0. upd t0 t; [|apply (I_log s I)]. rewrite (I_log s I), Ept. cbn. tauto.
+      + apply (I_nodup s I). }
     assert (Hi : i = (n0 + length (log s))%nat) by (apply (I_cur s I t); left; exact Ept).
     assert (Hf : file s = init ++ concat (map (recd c) (log s))).
     { rewrite (I_file s I) at 1. unfold partial. rewrite Ho, Ept, app_nil_r. reflexivity. }
@@ -257,6 +272,43 @@ Proof.
     + intros t0. upd t0 t; [|apply (I_log s I)]. rewrite (I_log s I), Ept. cbn. tauto.
     + apply (I_nodup s I).
   - discriminate.
+  - (* PFailing: error path, release the flock *)
+    inversion Hstep; subst; clear Hstep.
+    assert (Ho : owner s = Some t) by (apply (I_owner s I); rewrite Ept; reflexivity).
+    constructor; cbn [pcs tbl owner file log].
+    + intros t0. upd t0 t; [cbn; split; discriminate|].
+      split; [discriminate|]. intros Hh. exfalso. apply n. apply (holder_unique s t0 t I Hh). rewrite Ept. reflexivity.
+    + intros t0. upd t0 t; [intros _; apply (I_tbl1 s I); rewrite Ept; reflexivity|apply (I_tbl1 s I)].
+    + intros p Hp. destruct (I_tbl2 s I p Hp) as (t0 & Hp0 & Hl). exists t0. split; [exact Hp0|].
+      upd t0 t; [reflexivity|exact Hl].
+    + intros t0 t1 H0 H1. apply (I_tbl3 s I).
+      * upd t0 t; [rewrite Ept; reflexivity|exact H0].
+      * upd t1 t; [rewrite Ept; reflexivity|exact H1].
+    + rewrite (I_file s I) at 1. unfold partial. cbn [owner]. rewrite Ho, Ept. reflexivity.
+    + intros t0 i0. upd t0 t; [intros [H|H]; discriminate|apply (I_cur s I)].
+    + intros t0 i0. upd t0 t; [intros [H|[H|H]]; discriminate|apply (I_done s I)].
+    + intros t0. upd t0 t; [discriminate|apply (I_pos s I)].
+    + intros t0. upd t0 t; [|apply (I_log s I)]. rewrite (I_log s I), Ept. cbn. tauto.
+    + apply (I_nodup s I).
+  - (* PFailUnflocked: error path, drop the table entry, return the error *)
+    inversion Hstep; subst; clear Hstep.
+    constructor; cbn [pcs tbl owner file log].
+    + intros t0. upd t0 t; [|apply (I_owner s I)]. rewrite (I_owner s I), Ept. cbn. tauto.
+    + intros t0. upd t0 t; [discriminate|]. intros Hl. unfold updf.
+      destruct (Nat.eqb_spec (proc c t0) (proc c t)) as [E|_]; [|apply (I_tbl1 s I); exact Hl].
+      exfalso. apply n. apply (I_tbl3 s I); [exact Hl | rewrite Ept; reflexivity | exact E].
+    + intros p Hp. unfold updf in Hp. destruct (Nat.eqb_spec p (proc c t)) as [Ep|Hne]; [discriminate|].
+      destruct (I_tbl2 s I p Hp) as (t0 & Hp0 & Hl). exists t0. split; [exact Hp0|].
+      rewrite updf_other by (intros ->; congruence). exact Hl.
+    + intros t0 t1. upd t0 t; [discriminate|]. upd t1 t; [discriminate|]. apply (I_tbl3 s I).
+    + rewrite (I_file s I) at 1. unfold partial. cbn [owner pcs].
+      destruct (owner s) as [o|] eqn:Eo; [|reflexivity]. upd o t; [|reflexivity].
+      apply (I_owner s I) in Eo. rewrite Ept in Eo. discriminate.
+    + intros t0 i0. upd t0 t; [intros [H|H]; discriminate|apply (I_cur s I)].
+    + intros t0 i0. upd t0 t; [intros [H|[H|H]]; discriminate|apply (I_done s I)].
+    + intros t0. upd t0 t; [discriminate|apply (I_pos s I)].
+    + intros t0. upd t0 t; [|apply (I_log s I)]. rewrite (I_log s I), Ept. cbn. tauto.
+    + apply (I_nodup s I).
   - discriminate.
 Qed.
 
@@ -349,17 +401,17 @@ Proof.
 Qed.
 
 (* hence an append issued after the others have finished always succeeds, at the next index *)
-Theorem later_append_succeeds sch t : let s := run c sch (init_st init) in quiescent s -> pcs s t = PStart ->
+Theorem later_append_succeeds sch t : let s := run c sch (init_st init) in quiescent s -> pcs s t = PStart -> bad c t = false ->
   exists s', replay c [t; t; t; t; t; t; t] s = Some s' /\
              pcs s' t = PDoneOk (S (n0 + length (log s))) /\ log s' = log s ++ [t].
 Proof.
-  cbv zeta. intros Q Ht. pose proof (reachable_inv sch) as I.
+  cbv zeta. intros Q Ht Hgood. pose proof (reachable_inv sch) as I.
   destruct (quiescent_outcome sch Q) as (Hlen & _ & _ & Hown & Htbl).
   set (s := run c sch (init_st init)) in *.
   cbn [replay]. unfold step at 1. rewrite Ht, Htbl.
   unfold step at 1. cbn [pcs owner tbl file log]. rewrite updf_same, Hown.
   unfold step at 1. cbn [pcs owner tbl file log set_pc]. rewrite updf_same.
-  unfold step at 1. cbn [pcs owner tbl file log set_pc]. rewrite updf_same.
+  unfold step at 1. cbn [pcs owner tbl file log set_pc]. rewrite updf_same, Hgood.
   unfold step at 1. cbn [pcs owner tbl file log set_pc]. rewrite updf_same.
   unfold step at 1. cbn [pcs owner tbl file log set_pc]. rewrite updf_same.
   unfold step at 1. cbn [pcs owner tbl file log set_pc]. rewrite updf_same.
@@ -376,14 +428,16 @@ Proof.
   cbv zeta. intros Hs Hf. pose proof (reachable_inv sch) as I. set (s := run c sch (init_st init)) in *.
   destruct (step c s t) eqn:E; [exists t; congruence|].
   unfold step in E. destruct (pcs s t) eqn:Ept; try discriminate; try congruence.
-  destruct (owner s) as [o|] eqn:Eo; [|discriminate].
-  exists o. apply (I_owner _ I) in Eo. unfold step. destruct (pcs s o); try discriminate.
+  - destruct (owner s) as [o|] eqn:Eo; [|discriminate].
+    exists o. apply (I_owner _ I) in Eo. unfold step.
+    destruct (pcs s o); try discriminate; destruct (bad c o); discriminate.
+  - destruct (bad c t); discriminate.
 Qed.
 
 End Appenders.
 
 (* ------------------------------------------------------------------ non-vacuity: two processes, three threads *)
-Definition ex_cfg : cfg := mkCfg 4 2 (fun t => Nat.modulo t 2) (fun t => repeat (Z.of_nat (S t)) 4).
+Definition ex_cfg : cfg := mkCfg 4 2 (fun t => Nat.modulo t 2) (fun t => repeat (Z.of_nat (S t)) 4) (fun t => Nat.eqb t 3).
 Example ex_run :
   let s := run ex_cfg [0;1;0;2;1;0;0;0;0;0;1;1;1;1;1;1;2;2;2;2;2;2;2]%nat (init_st [9;9;9;9]) in
   (pcs s 0%nat, pcs s 1%nat, pcs s 2%nat, file s) =
